@@ -3,7 +3,7 @@
 # run the repository's own tests there (-t), run the given quick checks against it, and remove the worktree.
 RUNTESTS=0; REV=HEAD
 while getopts "tr:" o; do case $o in t) RUNTESTS=1;; r) REV=$OPTARG;; esac; done; shift $((OPTIND-1))
-PATCH=$1; shift
+PATCH=$1; shift; case "$PATCH" in -|/*) ;; *) PATCH="$PWD/$PATCH";; esac
 ROOT=$(cd "$(dirname "$0")" && pwd)
 W=$(mktemp -d /tmp/mut.XXXXXX)
 trap 'git -C /repo worktree remove --force "$W" >/dev/null 2>&1; rm -rf "$W"' EXIT
